@@ -52,6 +52,24 @@ Theorem C07_multi_singleton :
 Proof. exact @role_calls_singleton. Qed.
 Print Assumptions C07_multi_singleton.
 
+(* ---- C05 lifted to every API surface ---- *)
+From QI Require Import Spec.Embed Proofs.C05b.
+(* For every one of the surfaces of C07's regenerated wiring table (State methods, chainable forms, Gate constructors
+   executed through a circuit, CircuitBuilder methods, circuit! arms), every argument assignment and every state: the
+   call succeeds IF AND ONLY IF each operator application its documented roles prescribe has valid arguments (arity,
+   range, control/target overlap, ...), otherwise it is an error - and it never panics. *)
+Theorem C07_every_surface_ok_iff_valid :
+  forall (T : Type) (O : sops T),
+    ring_theory (s0 O) (s1 O) (sadd O) (smul O) (ssub O) (sopp O) (@Logic.eq T) ->
+  forall e, In e wiring_table ->
+  forall par (v : env (T:=T)) n (a : list (C (T:=T))), List.length a = N.to_nat (2 ^ n) ->
+  let calls := role_calls (is_each (e_form e)) (eop v (canon_op e)) (lval v (targets_of (e_roles e))) (lval v (controls_of (e_roles e))) in
+  is_ok (run O par v (e_body e) (mkState n a)) = forallb (call_valid n) calls /\ run O par v (e_body e) (mkState n a) <> Panic.
+Proof.
+  intros T O R e He. apply (surface_ok_iff_valid O R). exact (proj1 (forallb_forall _ _) C07_table_ok e He).
+Qed.
+Print Assumptions C07_every_surface_ok_iff_valid.
+
 (* non-vacuity: the table is large and covers all five surfaces *)
 Example C07_nonvacuous :
   Nat.leb 400 (List.length wiring_table) = true /\
